@@ -101,6 +101,18 @@ type Result struct {
 	Log      []modelgit.Invocation
 }
 
+// Unmodelled returns the first git command of the run that the model git does
+// not implement but that only reads ("" if there is none): the harness then
+// has to be extended, the run is no verdict.
+func (r *Result) Unmodelled() string {
+	for _, inv := range r.Log {
+		if inv.Kind == modelgit.KUnexpected && modelgit.LooksReadOnly(inv.Args) {
+			return fmt.Sprint(inv.Args)
+		}
+	}
+	return ""
+}
+
 // Scan runs CollectReferences + ScanRepositoryUsingGraph on the model.
 // explicit are ROOT arguments (name, id) appended after the references.
 func Scan(env *modelgit.Env, rg sizes.RefGrouper, explicit [][2]string, style sizes.NameStyle, progress meter.Progress) (res Result) {
